@@ -493,16 +493,20 @@ func (t *TOTP) validate(r *http.Request) (User, string, error) {
 	// code as it reads it, otherwise "123456 " replays "123456"
 	input := strings.TrimSpace(totpCodeValues.GetCode())
 
-	if oneTime, ok := user.(UserOneTime); ok {
-		oldCode := oneTime.GetTOTPLastCode()
-		if oldCode == input {
-			return user, t.Localizef(r.Context(), authboss.TxtRepeated2FACode), nil
-		}
-		oneTime.PutTOTPLastCode(input)
+	oneTime, isOneTime := user.(UserOneTime)
+	if isOneTime && oneTime.GetTOTPLastCode() == input {
+		return user, t.Localizef(r.Context(), authboss.TxtRepeated2FACode), nil
 	}
 
 	if !totp.Validate(input, secret) {
 		return user, t.Localizef(r.Context(), authboss.TxtInvalid2FACode), nil
+	}
+
+	// Only a code that was accepted is remembered: a wrong guess must not
+	// displace the last used code (the failed attempt's user is saved by
+	// other modules' handlers), or that code could be replayed after it.
+	if isOneTime {
+		oneTime.PutTOTPLastCode(input)
 	}
 
 	return user, t.Localizef(r.Context(), authboss.TxtSuccess), nil
